@@ -254,11 +254,12 @@ def region_specs(tier, part='main'):
     offs = [OFFSETS[0], OFFSETS[2]] if tier == 'quick' else OFFSETS
     decos = OFFDIAG if part == 'offdiag' else DIAG
     out = []
-    for off in offs:
+    for io, off in enumerate(offs):
         c = (W.REFPIX[0] + off[0], W.REFPIX[1] + off[1])
         for g in geometries(c):
             for inc, deco in decos:
-                out.append(decorate(g, inc, deco))
+                # the exclusion flag is spelt False at the first centre and 0 (what the DS9 reader stores) at the others
+                out.append(decorate(g, 0 if (inc is False and io > 0) else inc, deco))
     return out
 
 
